@@ -195,6 +195,9 @@ func runC10(k c10Case) (vs []mon.V, err error) {
 		add("C10/created-pod/labels", fmt.Sprintf("labels %v lack the ExtendedDaemonSet / replica-set name", pod.Labels))
 	}
 	for lk, lv := range k.Template.Labels {
+		if lk == oracle.LabelEDSName || lk == oracle.LabelRSName {
+			continue // reserved keys: the controller's own values win (checked above)
+		}
 		if pod.Labels[lk] != lv {
 			add("C10/created-pod/labels-template", fmt.Sprintf("template label %s=%s missing", lk, lv))
 		}
